@@ -72,6 +72,11 @@ class Case:
         self.repo = None
         self.nstash = 0
         self.cfg0 = None
+        self.stash_obj = None      # the long-lived Stash object of "STL"
+        # the superproject of "SU" lives in <top>/p (its submodule is the work tree p/repo): its own files
+        # are neither part of the model's file system nor of the protected snapshot
+        self.skip = {os.path.join(os.fsencode(self.p), b".git"), os.path.join(os.fsencode(self.p), b".gitmodules"),
+                     os.path.join(os.fsencode(self.top), b"src.git")}
         if not clone_first:
             self.repo = Repo.init(self.W, mkdir=True)
             self._post_init()
@@ -95,12 +100,14 @@ class Case:
             self.cfg0 = f.read()
 
     def close(self):
+        self.stash_obj = None
         if self.repo is not None:
             self.repo.close()
             self.repo = None
 
     def reopen(self):
         self.repo = Repo(self.W)
+        self.stash_obj = None
 
     # ------------------------------------------------------------------ abstract -> real objects
     def raw_name(self, comps) -> bytes:
@@ -223,7 +230,58 @@ class Case:
     def op_RH(self, entries):
         porcelain.reset(self.repo, "hard", self._commit_for(entries))
 
-    def op_ST(self, entries):
+    def op_SU(self, entries):
+        """First-time checkout of a submodule (path "repo" of a superproject in <top>/p) whose commit has
+        the tree `entries`, through porcelain.submodule_update, under the superproject's settings."""
+        assert self.repo is None
+        src = Repo.init_bare(os.path.join(self.top, "src.git"), mkdir=True)
+        try:
+            cid = self.add_commit(src.object_store, self.add_tree(src.object_store, entries))
+            src.refs[b"refs/heads/master"] = cid
+            src.refs.set_symbolic_ref(b"HEAD", b"refs/heads/master")
+        finally:
+            src.close()
+        sup = Repo.init(self.p)
+        try:
+            c = sup.get_config()
+            c.set((b"core",), b"protectNTFS", b"true" if self.prot["ntfs"] else b"false")
+            c.set((b"core",), b"protectHFS", b"true" if self.prot["hfs"] else b"false")
+            c.write_to_path()
+            gm = b'[submodule "repo"]\n\tpath = repo\n\turl = ' + os.fsencode(src.path) + b"\n"
+            with open(os.path.join(self.p, ".gitmodules"), "wb") as f:
+                f.write(gm)
+            st = sup.object_store
+            b = Blob.from_string(gm)
+            st.add_object(b)
+            t = Tree()
+            t.add(b".gitmodules", 0o100644, b.id)
+            t.add(b"repo", 0o160000, cid)
+            st.add_object(t)
+            sup.refs[b"refs/heads/master"] = self.add_commit(st, t.id)
+            sup.refs.set_symbolic_ref(b"HEAD", b"refs/heads/master")
+            # the clone inside submodule_update reports progress on the process's stderr (a default argument
+            # bound at import time): silence file descriptor 2 for the duration of the call
+            sys.stderr.flush()
+            saved, null = os.dup(2), os.open(os.devnull, os.O_WRONLY)
+            try:
+                os.dup2(null, 2)
+                porcelain.submodule_update(sup, init=True)
+            finally:
+                os.dup2(saved, 2)
+                os.close(saved)
+                os.close(null)
+        finally:
+            sup.close()
+            if os.path.isfile(os.path.join(self.W, ".git")):
+                self.repo = Repo(self.W)
+
+    def op_STL(self, entries):
+        from dulwich.stash import Stash
+        if self.stash_obj is None:
+            self.stash_obj = Stash.from_repo(self.repo)
+        self.op_ST(entries, pop=lambda r: self.stash_obj.pop(0))
+
+    def op_ST(self, entries, pop=porcelain.stash_pop):
         r = self.repo
         head = r.head()
         st = r.object_store
@@ -242,7 +300,7 @@ class Case:
             old = None
         r.refs.set_if_equals(b"refs/stash", old, c.id, committer=IDENT, timestamp=1000000000,
                              timezone=0, message=b"WIP")
-        porcelain.stash_pop(r)
+        pop(r)
 
     def op_AP(self, entries):
         # one file patch per regular file, in tree order; apply_patches handles the files of one
@@ -297,10 +355,15 @@ class Case:
         def walk(d, path):
             for name in sorted(os.listdir(d)):
                 full = os.path.join(d, name)
-                if full == os.path.join(topb, b"src.git"):
+                if full in self.skip:
                     continue
                 pth = path + (comp_token(name),)
                 st = os.lstat(full)
+                if full == gitdir and stat.S_ISREG(st.st_mode) and self.repo is not None:
+                    # the work tree of a submodule: its control directory is the one the .git file names
+                    out[pth] = {"t": "d"}
+                    walk_git(os.fsencode(self.repo.controldir()), pth)
+                    continue
                 if stat.S_ISLNK(st.st_mode):
                     out[pth] = {"t": "l", "to": self.link_comps(os.readlink(full))}
                 elif stat.S_ISDIR(st.st_mode):
@@ -369,7 +432,7 @@ class Case:
                 if in_git and d == gitdir and (os.fsdecode(name) in GIT_LEGIT
                                                or (name == b"config" and not include_config)):
                     continue
-                if full == srcb:
+                if full == srcb or full in self.skip:
                     continue
                 st = os.lstat(full)
                 rel = os.path.relpath(full, rootb).decode("utf-8", "backslashreplace")
